@@ -117,6 +117,63 @@ impl RecvHandler {
         (handler_recv, exit_sender)
     }
 
+    /// Like `spawn`, but datagrams are taken from a channel instead of the UDP sockets. Every
+    /// datagram is processed by the same `handle_inbound`.
+    #[cfg(feature = "verif-hooks")]
+    pub(crate) fn spawn_virtual(
+        config: RecvHandlerConfig,
+        mut inbound: mpsc::UnboundedReceiver<crate::verif::Datagram>,
+    ) -> (mpsc::Receiver<RecvPacket>, oneshot::Sender<()>) {
+        let (exit_sender, exit) = oneshot::channel();
+        let RecvHandlerConfig {
+            filter_config,
+            ban_duration,
+            executor,
+            recv,
+            second_recv,
+            local_node_id,
+            protocol_identity,
+            expected_responses,
+        } = config;
+
+        let filter_enabled = filter_config.enabled;
+        let (handler, handler_recv) = mpsc::channel(30);
+
+        let mut recv_handler = RecvHandler {
+            recv,
+            second_recv,
+            expected_responses,
+            filter: Filter::new(filter_config, ban_duration),
+            node_id: local_node_id,
+            protocol_identity,
+            handler,
+            exit,
+        };
+
+        executor.spawn(Box::pin(async move {
+            let mut interval = tokio::time::interval(Duration::from_secs(30));
+            let mut buffer = [0; MAX_PACKET_SIZE];
+            loop {
+                tokio::select! {
+                    Some((src, data)) = inbound.recv() => {
+                        // A UDP read into the fixed-size buffer truncates longer datagrams.
+                        let length = data.len().min(MAX_PACKET_SIZE);
+                        buffer[..length].copy_from_slice(&data[..length]);
+                        METRICS.add_recv_bytes(length);
+                        recv_handler.handle_inbound(src, length, &buffer).await;
+                    }
+                    _ = interval.tick(), if filter_enabled => {
+                        recv_handler.filter.prune_limiter();
+                    },
+                    _ = &mut recv_handler.exit => {
+                        return;
+                    }
+                }
+            }
+        }));
+        (handler_recv, exit_sender)
+    }
+
     /// The main future driving the recv handler. This will shutdown when the exit future is fired.
     async fn start(&mut self, filter_enabled: bool) {
         // Interval to prune to rate limiter.
